@@ -470,12 +470,14 @@ pub(crate) fn created(stat: &Stat) -> SystemTime {
     timestamp(&stat.stx_btime)
 }
 
-#[allow(clippy::cast_sign_loss)] // Checked.
 fn timestamp(ts: &libc::statx_timestamp) -> SystemTime {
-    let dur = Duration::new(ts.tv_sec as u64, ts.tv_nsec);
+    // The time is `tv_sec + tv_nsec / 10^9` seconds after the epoch, with a
+    // non-negative `tv_nsec` also for times before the epoch.
+    let nanos = Duration::new(0, ts.tv_nsec);
+    let whole = Duration::new(ts.tv_sec.unsigned_abs(), 0);
     if ts.tv_sec.is_negative() {
-        SystemTime::UNIX_EPOCH - dur
+        SystemTime::UNIX_EPOCH - whole + nanos
     } else {
-        SystemTime::UNIX_EPOCH + dur
+        SystemTime::UNIX_EPOCH + whole + nanos
     }
 }
